@@ -22,6 +22,8 @@ class MonoModel(Model):
         self.rel = None
         self.fold = None             # captured (init, closure)
         self.fold_result = None      # value try_fold should return in output runs
+        self.loopinfo = None         # captured (pattern, body, frame, carried variable) when the fold is written as a `for` loop
+        self.loop_result = None      # state the carried variable holds after the loop in output runs
         self.value_uses = []
 
     def compare(self, op, a, b, e):
@@ -57,23 +59,79 @@ class MonoModel(Model):
                 return Obj('windows', of=a0, size=w)
             if last == 'into_iter' and isinstance(a0, Obj) and a0.kind == 'windows':
                 return Obj('windows_iter', of=a0)
+            if last == 'iter' and isinstance(a0, Obj) and a0.kind == 'vec':
+                return Obj('veciter', off=0)
             if last in ('index',) and isinstance(a0, Obj) and a0.kind == 'window':
                 i = deref_all(args[1]).const()
                 if i in (0, 1):
                     return Ref(ValPlace(Num(Rat.atom('w%d' % i))))
                 raise Unsupported("window element %s" % i, e)
+        if name == 'std::iter::IntoIterator::into_iter' and isinstance(a0, Obj) and a0.kind in ('windows', 'windows_iter'):
+            return Obj('windows_iter', of=a0 if a0.kind == 'windows' else a0.d['of'])
+        if name == 'std::iter::IntoIterator::into_iter' and isinstance(a0, Obj) and a0.kind in ('veciter', 'pairs'):
+            return a0
+        if name == 'std::iter::Iterator::skip' and isinstance(a0, Obj) and a0.kind == 'veciter':
+            k = deref_all(args[1])
+            if isinstance(k, Num) and k.const() is not None:
+                return Obj('veciter', off=a0.d['off'] + int(k.const()))
+            raise Unsupported("skip by a non-literal count", e)
+        if name == 'std::iter::Iterator::zip' and isinstance(a0, Obj) and a0.kind == 'veciter':
+            b0 = deref_all(args[1])
+            if isinstance(b0, Obj) and b0.kind == 'veciter' and sorted((a0.d['off'], b0.d['off'])) == [0, 1]:
+                return Obj('pairs', order=(a0.d['off'], b0.d['off']))
+            raise Unsupported("zip of something other than (iter(), iter().skip(1)) of the vector", e)
         if name == 'std::iter::Iterator::try_fold':
             it = deref_all(args[0])
-            if not (isinstance(it, Obj) and it.kind == 'windows_iter'):
-                raise Unsupported("try_fold over something other than windows(2).into_iter(): %r" % (it,), e)
-            size = it.d['of'].d['size']
-            if not (isinstance(size, Num) and size.const() == 2):
-                raise Unsupported("window size is not 2", e)
+            self.element_of(it, e)
             self.fold = (args[1], args[2])
             if self.fold_result is None:
                 raise StopRun()
             return self.fold_result
         return NotImplemented
+
+
+def _element_of(self, it, e):
+    """the abstract element (a pair of neighbours w0, w1) the iterator `it` yields; fixes self.elem"""
+    if isinstance(it, Obj) and it.kind == 'windows':
+        it = Obj('windows_iter', of=it)
+    if isinstance(it, Obj) and it.kind == 'windows_iter':
+        size = it.d['of'].d['size']
+        if not (isinstance(size, Num) and size.const() == 2):
+            raise Unsupported("window size is not 2", e)
+        self.elem = lambda: Ref(ValPlace(Obj('window')))
+        self.elem_by_value = lambda: Obj('window')
+        return
+    if isinstance(it, Obj) and it.kind == 'pairs':
+        o = it.d['order']
+        self.elem = lambda: Tup([Ref(ValPlace(Num(Rat.atom('w%d' % o[0])))), Ref(ValPlace(Num(Rat.atom('w%d' % o[1]))))])
+        self.elem_by_value = self.elem
+        return
+    raise Unsupported("fold / loop over something other than the neighbouring pairs of the vector "
+                      "(windows(2) or iter().zip(iter().skip(1))): %r" % (it,), e)
+
+
+MonoModel.element_of = _element_of
+
+
+def _mono_for_loop(self, iterable, pat, body, frame, e):
+    it = deref_all(iterable)
+    self.element_of(it, e)
+    from ..thir import walk
+    carried = set()
+    for x in walk(body):
+        if x.get('k') == 'Assign' and x['l'].get('k') in ('Var', 'Upvar'):
+            carried.add(x['l']['var'])
+    if len(carried) != 1:
+        raise Unsupported("the fold loop carries %s (expected exactly one state variable)" % sorted(carried), e)
+    var = list(carried)[0]
+    if self.loop_result is not None:
+        frame.assign(var, self.loop_result)
+        return Unit()
+    self.loopinfo = (pat, body, frame, var, frame.lookup(var))
+    raise StopRun()
+
+
+MonoModel.for_loop = _mono_for_loop
 
 
 def run(chk):
@@ -128,8 +186,43 @@ def analyse(chk, lib, set_text=True):
     except (Unsupported, Diverge) as ex:
         chk.ob('R12.2', "unrecognised glue in monotonic_prop: %s" % ex, False, ex.where or body['span'], 'glue-shape')
         return
-    init, clo = m.fold
+    loop_form = m.fold is None and m.loopinfo is not None
+    if not loop_form and m.fold is None:
+        chk.ob('R12.2', "monotonic_prop folds over windows(2) (neither try_fold nor a loop was reached)", False, body['span'], 'glue-shape')
+        return
+    if loop_form:
+        lpat, lbody, lframe, lvar, init = m.loopinfo
+        clo = None
+    else:
+        init, clo = m.fold
     init = deref_all(init)
+
+    def fold_step(state):
+        """one step of the fold on abstract state `state` under the current relation m.rel: ('ok', state') | ('err', class)"""
+        if not loop_form:
+            r = deref_all(it.apply(clo, [state, m.elem()]))
+            if isinstance(r, Enum) and r.adt == 'std::result::Result' and r.variant == 'Ok':
+                return ('ok', deref_all(r.fields['0']))
+            if isinstance(r, Enum) and r.adt == 'std::result::Result' and r.variant == 'Err':
+                return ('err', deref_all(r.fields['0']))
+            return ('bad', r)
+        fr2 = Frame()
+        chain = []
+        f = lframe
+        while f is not None:
+            chain.append(f)
+            f = f.parent
+        for f in reversed(chain):
+            for k_, v_ in f.vars.items():
+                fr2.bind(k_, v_)
+        fr2.bind(lvar, state)
+        if not it.match_pat(lpat, ValPlace(m.elem()), fr2):
+            raise Unsupported("loop pattern over the neighbouring pairs")
+        try:
+            it.eval(lbody, fr2)
+            return ('ok', deref_all(fr2.lookup(lvar)))
+        except ReturnEx as r:
+            return ('err', deref_all(r.v))
     chk.ob('R12.2', "fold starts in a state value (%r)" % (init,), isinstance(init, Enum), body['span'], 'init-state')
 
     # ---- explore the automaton through the closure itself
@@ -158,22 +251,20 @@ def analyse(chk, lib, set_text=True):
             import copy
             s = copy.deepcopy(states[k])
             try:
-                r = it.apply(clo, [s, Ref(ValPlace(Obj('window')))])
+                kind, r = fold_step(s)
             except (Unsupported, Diverge) as ex:
                 chk.ob('R12.1', "fold step on state %r, relation %s is comparison-only and total: %s" % (states[k], rel, ex),
                        False, ex.where or body['span'], 'step-%s-%s' % (states[k], rel))
                 return
-            r = deref_all(r)
-            if isinstance(r, Enum) and r.adt == 'std::result::Result' and r.variant == 'Ok':
-                k2 = add(deref_all(r.fields['0']))
+            if kind == 'ok' and isinstance(r, Enum):
+                k2 = add(r)
                 trans[(k, rel)] = ('ok', k2)
                 table_rows.append("%r --%s--> %r" % (states[k], rel, states[k2]))
-            elif isinstance(r, Enum) and r.adt == 'std::result::Result' and r.variant == 'Err':
-                o = deref_all(r.fields['0'])
-                trans[(k, rel)] = ('err', o)
-                table_rows.append("%r --%s--> STOP(%r)" % (states[k], rel, o))
+            elif kind == 'err':
+                trans[(k, rel)] = ('err', r)
+                table_rows.append("%r --%s--> STOP(%r)" % (states[k], rel, r))
             else:
-                chk.ob('R12.1', "fold step returns Ok(state) or Err(class), got %r" % (r,), False, body['span'], 'step-shape')
+                chk.ob('R12.1', "fold step yields a next state or stops with a class, got %r" % (r,), False, body['span'], 'step-shape')
                 return
     chk.note('abstract_states', len(order))
     chk.note('transition_entries', len(trans))
@@ -187,6 +278,7 @@ def analyse(chk, lib, set_text=True):
         m2, it2 = fresh('many')
         import copy
         m2.fold_result = OK(copy.deepcopy(states[k]))
+        m2.loop_result = copy.deepcopy(states[k])
         try:
             out = deref_all(it2.call_def(body['def'], [Ref(ValPlace(vec))]))
             outputs[k] = out
@@ -196,7 +288,7 @@ def analyse(chk, lib, set_text=True):
             chk.ob('R12.2', "final mapping of end state %r: %s" % (states[k], ex), False, ex.where, 'finish-%r' % (states[k],))
             return
     err_map_ok = True
-    for probe in (Enum(MON, 'NotMonotonic'), Enum(MON, 'Rising', {'strict': B(True)})):
+    for probe in (() if loop_form else (Enum(MON, 'NotMonotonic'), Enum(MON, 'Rising', {'strict': B(True)}))):
         m2, it2 = fresh('many')
         m2.fold_result = ERR(probe)
         try:
